@@ -934,3 +934,39 @@ def c01_rate_search(rp, seed):
         if bad:
             return r2, msg
     return None
+
+
+# ---------------------------------------------------------------- C06
+@checker("c06_sigma")
+def c06_sigma(rp):
+    got = real_rate_concrete(rp)
+    p = {k: num(v) for k, v in rp["params"].items()}
+    tau = p["tau"] if rp.get("t") is None else num(rp["t"])
+    lim = bool(rp.get("limit", False))
+    for i, t in enumerate(rp["game"]):
+        for j, q in enumerate(t):
+            prior = num(q[1])
+            sg = got[i][j][1]
+            bound = prior if lim else math.sqrt(prior * prior + tau * tau)
+            if rp.get("clause") == "canary":
+                bound = 0.5 * prior
+            if not (sg > 0 and math.isfinite(sg) and sg <= bound * (1 + 1e-12)):
+                return True, f"{rp['model']}.rate: player [{i}][{j}] prior sigma {prior!r}, tau {tau!r}, limit_sigma={lim}: posterior sigma {sg!r} > bound {bound!r}"
+    return False, "sigma within bounds"
+
+
+@searcher("c06_sigma")
+def c06_sigma_search(rp, seed):
+    rnd = random.Random(seed)
+    sizes = [len(x) for x in rp["game"]]
+    for k in range(3000):
+        beta = 25 / 6
+        gm = [[[enc(rnd.uniform(-60, 120)), enc(rnd.choice([0.01, 0.5, 3.0, 8.0, 30.0]))] for _ in range(n)] for n in sizes]
+        r2 = dict(rp, game=gm, params=_std_params(tau=rnd.choice([0.0, 25 / 300, 1.0])))
+        try:
+            bad, msg = c06_sigma(r2)
+        except Exception:  # noqa: BLE001
+            continue
+        if bad:
+            return r2, msg
+    return None
